@@ -105,13 +105,23 @@ OffsetND(F) ==
   LET M == BigMulSmall(BigMulSmall(BigMulSmall(FMant(F), 86400), 1000), 1000)
       e == FExp(F)
   IN IF e >= 0 THEN <<BigMulPow2(M, e), <<1>>>> ELSE <<M, BigPow2(-e)>>
-\* |O * unit - N/Dn| <= half + slack, i.e. O is N/Dn rounded to the nearest
-\* multiple of `unit` (unit = 1 for microseconds, 1000000 for seconds)
-\*   2*|O*unit*Dn - N| * 2^51 <= (unit*Dn + 2*Dn) * 2^51 + 2*N
+\* O is N/Dn "rounded to the nearest multiple of unit" (unit = 1 microsecond or 1000000 = one second) as far
+\* as IEEE double arithmetic can know: the product days * 86400000000 is rounded ONCE to a double fl(p), then
+\* to an integer.  With b = number of bits of floor(p):
+\*    b >= 53: fl(p) is an integer within 2^(b-54) of p, and the result is fl(p)      |r - p| <= 2^(b-54)
+\*    b <  53: |fl(p) - p| <= 2^(b-54) < 1/2, then rounding to an integer adds 1/2       |r - p| <= 1/2 + 2^(b-54)
+\* (ties either way).  For seconds the microsecond result is rounded once more: + 500000.
+\*   2 * |O*unit*Dn - N|  <=  Dn * (u + 2^(b-53))   u = twice the rounding allowance of the integer stage(s)
 NearestOK(N, Dn, O, unit) ==
   LET OD == BigMul(BigMulSmall(BigMulSmall(O, IF unit = 1 THEN 1 ELSE 1000), IF unit = 1 THEN 1 ELSE 1000), Dn)
       diff == IF BigLe(OD, N) THEN BigSub(N, OD) ELSE BigSub(OD, N)
-      U == BigMul(IF unit = 1 THEN <<1>> ELSE BigFromInt(1000000), Dn)
-  IN BigLe(BigMul(BigMulSmall(diff, 2), P51),
-           BigAdd(BigMul(BigAdd(U, BigMulSmall(Dn, 2)), P51), BigMulSmall(N, 2)))
+      b == IF BigLt(N, Dn) THEN 0 ELSE BitLen(N) - BitLen(Dn) + 1          \* Dn is a power of two: exact
+      \* microseconds: 1 (the rounding to an integer) unless fl(p) is an integer already; seconds: the result of
+      \* the microsecond stage is rounded once more to a whole second: + 1000000
+      u == IF unit = 1 THEN (IF b >= 53 THEN <<>> ELSE <<1>>)
+           ELSE (IF b >= 53 THEN BigFromInt(1000000) ELSE BigFromInt(1000001))
+  IN IF b >= 53
+     THEN BigLe(BigMulSmall(diff, 2), BigMul(Dn, BigAdd(u, BigPow2(b - 53))))
+     ELSE \* scale by 2^(53-b):  2*diff*2^(53-b) <= Dn * (unit*2^(53-b) + 1)
+          BigLe(BigMulPow2(BigMulSmall(diff, 2), 53 - b), BigMul(Dn, BigAdd(BigMulPow2(u, 53 - b), <<1>>)))
 =============================================================================
